@@ -78,7 +78,8 @@ RULE = ("opt: all 25 default tables x (every letter once; random proteins of len
         "log-uniform; each residue at each end) ; tables re-weighted in the harness (deep copy + OptimizeTable) from biased random "
         "coding sequences x proteins over the letters that keep a codon above the share; hand-written text tables (ten equal synonyms, "
         "zero weights, a single dominant codon, the exact 10 % boundary); unencodable residues: lower case, J/B/X/Z/U/O, digits, "
-        "'*' under codes 27/28/31, letters whose synonyms all have weight zero, at the first / a middle / the last position; "
+        "'*' under codes 27/28/31, letters outside ASCII whose code point collides with an encodable letter modulo 128 / 256 / 65536, "
+        "letters whose synonyms all have weight zero, at the first / a middle / the last position; "
         "rp: random.ProteinSequence for lengths -1..6 and random lengths to 2000, random seeds, all 25 tables and re-weighted ones; "
         "hist: one private table instance through optimize / re-weight in place / optimize again / swap two entries' letters / translate "
         "(every step judged against the table as it is at that moment); proteins around block sizes (1023..4097; 255..65537 thorough); "
@@ -237,6 +238,27 @@ def cases(seed, tier):
             w = list(randword(r, letters, r.randint(0, 12)))
             w.insert(r.choice([0, len(w) // 2, len(w)]), badc)
             yield ["opt", "id:%d" % i, "".join(w), "2"]
+    # ---- letters outside ASCII that COLLIDE with an encodable letter when truncated: code point mod 256, mod 128, mod 65536
+    # equal to the code of a letter of the table (U+0141 -> 'A', U+014B -> 'K', U+00C1 -> 'A' mod 128, U+1004B -> 'K' ...).
+    # They are absent from the table: the demanded outcome is the error (any DNA is a failure, it cannot translate back).
+    for i in (r.sample(IDS, 5) + [1, 11]) if not thorough else IDS:
+        letters = "".join(sorted(by_aa(i)))
+        for mod in ([0x100, 0x80, 0x10000] if not thorough else [0x100, 0x200, 0x80, 0x10000, 0x400]):
+            for _ in range(2):
+                l = r.choice(letters)
+                bad = chr(ord(l) + mod * (1 if mod == 0x10000 else r.randint(1, 3)))
+                w = list(randword(r, letters, r.randint(0, 25)))
+                w.insert(r.randrange(0, len(w) + 1), bad)
+                yield ["opt", "id:%d" % i, "".join(w), "2"]
+    cds = biased_cds(r, 11, 600)
+    enc = encodable_letters(11, cds)
+    for l in enc[:6]:
+        yield ["opt", "rw:11:" + cds, randword(r, enc, 5) + chr(ord(l) + 0x100) + randword(r, enc, 5), "2"]
+    # a rejected call followed by a valid call on the same goroutine (state left behind by the error path), and back
+    for i in r.sample(IDS, 3) if not thorough else IDS:
+        letters = "".join(sorted(by_aa(i)))
+        yield ["hist", "id:%d" % i, "2", "O:" + randword(r, letters, 8) + "J" + randword(r, letters, 8), "O:" + randword(r, letters, 30),
+               "O:" + chr(ord(letters[1]) + 0x100), "O:" + randword(r, letters, 30), "T:ATGAAATAG"]
     # ---- guards
     yield ["opt", "id:1", "", "2"]
     yield ["opt", "txt://", "MK", "2"]
